@@ -42,6 +42,51 @@ HUB = "netqasm.sdk.classical_communication.thread_socket.socket_hub"
 SOCK = "netqasm.sdk.classical_communication.thread_socket.socket"
 
 
+def check_subclass_state_before_publish(ctx, ts, rule="C18.I"):
+    """ThreadSocket.__init__ ends in the hub's connect(): from that call on the peer can reach the socket's callbacks, while the
+    constructor of a subclass is still running.  Whatever state a subclass's callbacks read must therefore exist before the base
+    constructor is called: an attribute that a callback of the class reads and that __init__ assigns only after super().__init__()
+    does not exist yet when a message arrives in the rendezvous window (the message is delivered nowhere)."""
+    repo = ctx.repo
+    base_init = ts.methods.get("__init__")
+    publishes = base_init is not None and any(isinstance(c, ast.Call) and isinstance(c.func, ast.Attribute) and c.func.attr == "connect" for c in ast.walk(base_init))
+    n = 0
+    for mod in repo.modules.values():
+        for c in mod.classes.values():
+            if c is ts or ts not in repo.mro(c):
+                continue
+            init = c.methods.get("__init__")
+            cbs = [f for name, f in c.methods.items() if name.endswith("_callback")]
+            if init is None or not cbs:
+                continue
+            n += 1
+            ctx.fn(f"{c.name}.__init__")
+            read = set()
+            for f in cbs:
+                me = A.param_names(f)[0] if A.param_names(f) else "self"
+                for x in ast.walk(f):
+                    if isinstance(x, ast.Attribute) and isinstance(x.value, ast.Name) and x.value.id == me and isinstance(x.ctx, ast.Load):
+                        read.add(x.attr)
+            body = A.strip_docstring(init.body)
+            sup = next((k for k, st in enumerate(body) if any(isinstance(x, ast.Call) and isinstance(x.func, ast.Attribute) and x.func.attr == "__init__" and isinstance(x.func.value, ast.Call)
+                                                                and dotted(x.func.value.func) == "super" for x in ast.walk(st))), None)
+
+            def assigned(stmts):
+                out = set()
+                for st in stmts:
+                    for x in ast.walk(st):
+                        if isinstance(x, ast.Attribute) and isinstance(x.value, ast.Name) and x.value.id == "self" and isinstance(x.ctx, ast.Store):
+                            out.add(x.attr)
+                return out
+
+            late = sorted((assigned(body[sup + 1:]) - assigned(body[:sup])) & read) if sup is not None else []
+            ctx.check(rule, f"{c.name}.__init__:state-of-the-callbacks-exists-before-the-socket-is-published", not (publishes and late),
+                      f"{c.name}.__init__ assigns {late} only after super().__init__(), which connects the socket and registers its callbacks; {', '.join(f.name for f in cbs)} read{'s' if len(cbs) == 1 else ''} "
+                      f"{'it' if len(late) == 1 else 'them'}: a message the peer sends while this constructor is still waiting for the rendezvous reaches the callback before the attribute exists and is delivered nowhere",
+                      c.loc(init), sample={"class": c.name, "callback state": sorted(read)})
+    ctx.check(rule, "socket-subclasses-with-callbacks-examined", True, sample={"classes": n}, trivial=True)
+
+
 def check_receive(ctx, hub, rule="C18.E"):
     """send and recv of the hub, executed by the checker's interpreter on a hub built from __init__ (no callbacks registered).
 
@@ -526,6 +571,7 @@ def run(ctx):
                   "(it is still in the hub's queue) is then never received", ts.loc(fn), sample={"wrapper": meth})
     ctx.anchor("C18.W", "receive wrappers around hub.recv", n_recv, 3)
     # 0 is an ordinary id / value / address: nothing int-valued may be tested by truthiness (nqsa/truth.py)
+    check_subclass_state_before_publish(ctx, ts, "C18.I")
     try:
         check_rendezvous(ctx, hub, "C18.R")
     except AnalysisError as ex_:
